@@ -28,6 +28,44 @@ class Ev:
         return "for %s in %s {%s}" % (self.patname, tshow(self.iter)[:60], " | ".join(str(b[1]) for b in self.bodies))
 
 
+BE_BYTES = {"core::num::<impl u16>::to_be_bytes": ("u16", 2), "core::num::<impl i16>::to_be_bytes": ("i16", 2), "core::num::<impl u32>::to_be_bytes": ("u32", 4),
+            "core::num::<impl i32>::to_be_bytes": ("i32", 4), "core::num::<impl u64>::to_be_bytes": ("u64", 8), "core::num::<impl i64>::to_be_bytes": ("i64", 8),
+            "core::num::<impl u8>::to_be_bytes": ("u8", 1), "core::num::<impl i8>::to_be_bytes": ("i8", 1)}
+
+
+def _fold_len(v):
+    """`[a, b, c].len()` is 3 (also under a cast)."""
+    if isinstance(v, tuple) and v[0] == "cast":
+        x = _fold_len(v[2])
+        return x if (x is not v[2] and x[0] == "lit") else v
+    if is_call(v) and v[1].split("::")[-1] == "len" and len(v[2]) == 1 and isinstance(v[2][0], tuple) and v[2][0][0] == "array":
+        return ("lit", len(v[2][0][1]))
+    return v
+
+
+def _slice_as_puts(val, t):
+    """put_slice(&x.to_be_bytes()) is put_uN(x); put_slice(&[b0, b1, ..]) is one put_u8 per element, where the consecutive bytes
+    x.to_be_bytes()[0..n] are again put_uN(x). None when the slice is anything else (text, caller data)."""
+    if is_call(val) and val[1] in BE_BYTES and len(val[2]) == 1:
+        kind, width = BE_BYTES[val[1]]
+        return [Ev("put", kind=kind, width=width, value=val[2][0], node=t[3], method="bytes::BufMut::put_" + kind)]
+    if not (isinstance(val, tuple) and val[0] == "array"):
+        return None
+    out, els, i = [], val[1], 0
+    while i < len(els):
+        e = els[i]
+        if isinstance(e, tuple) and e[0] == "index" and is_call(e[1]) and e[1][1] in BE_BYTES and e[2] == ("lit", 0):
+            kind, width = BE_BYTES[e[1][1]]
+            run = els[i:i + width]
+            if len(run) == width and all(isinstance(x, tuple) and x[0] == "index" and x[1] == e[1] and x[2] == ("lit", j) for j, x in enumerate(run)):
+                out.append(Ev("put", kind=kind, width=width, value=e[1][2][0], node=t[3], method="bytes::BufMut::put_" + kind))
+                i += width
+                continue
+        out.append(Ev("put", kind="u8", width=1, value=e, node=t[3], method="bytes::BufMut::put_u8"))
+        i += 1
+    return out
+
+
 def events_of_trace(trace, base_conds_len=0, conds=None):
     out = []
     for t in trace:
@@ -36,6 +74,12 @@ def events_of_trace(trace, base_conds_len=0, conds=None):
         if is_put(t):
             kind, width = PUTS.get(t[1], (t[1].split("::")[-1], None))
             val = t[2][1] if len(t[2]) > 1 else None
+            val = _fold_len(val)
+            if kind == "slice":
+                split = _slice_as_puts(val, t)
+                if split is not None:
+                    out.extend(split)
+                    continue
             out.append(Ev("put", kind=kind, width=width, value=val, node=t[3], method=t[1]))
         elif t[1] == "<for>":
             info = t[3]
